@@ -60,8 +60,20 @@ def scatter (x : List Nat) (i v : List Nat) : List Nat := assign x (i.zip v)
 def gather2 (a : Arr2) (rows cols : List Nat) : Vec := List.zipWith (fun r c => (a.getD r []).getD c 0) rows cols
 /-- `a[idx]` on the first axis of an array of 2-vectors -/
 def gatherPts (a : List Pt) (idx : List Nat) : List Pt := idx.map fun j => a.getD j (0, 0)
+/-- a 1-D array turned into a column, `a[:, None]`: only a column may be broadcast against an array of 2-vectors
+(a bare 1-D array in that place - `alpha * tij[...]` without `[:, None]` - does not type-check against `colMul`) -/
+structure Col where
+  v : Vec
 /-- `col[:, None] * rows` -/
-def colMul (c : Vec) (rows : List Pt) : List Pt := List.zipWith (fun s p => (s * p.1, s * p.2)) c rows
+def colMul (c : Col) (rows : List Pt) : List Pt := List.zipWith (fun s p => (s * p.1, s * p.2)) c.v rows
+
+/-- `np.vstack` of a list of arrays of rows: the rows of all of them.  Irreducible, so that it is NOT definitionally the
+same word as `hstackL` (a swapped `vstack` / `hstack` must not keep an obligation); `vstackL_eq` unfolds it -/
+@[irreducible] def vstackL {α} (l : List (List α)) : List α := l.flatten
+/-- `np.hstack` of a list of 1-D arrays: their entries one after the other -/
+@[irreducible] def hstackL {α} (l : List (List α)) : List α := l.flatten
+theorem vstackL_eq {α} (l : List (List α)) : vstackL l = l.flatten := by unfold vstackL; rfl
+theorem hstackL_eq {α} (l : List (List α)) : hstackL l = l.flatten := by unfold hstackL; rfl
 def ptsAdd (a b : List Pt) : List Pt := List.zipWith (fun p q => (p.1 + q.1, p.2 + q.2)) a b
 
 /-- `points[..., None] - i`: entry `[v][t]` is the vector from vertex `i` of triangle `t` to point `v` -/
@@ -98,7 +110,7 @@ def applyBatchedSrc {α β ε} (ap : List α → Except ε (List β)) (bs : Opti
   else if x.length == 0 then ap x
   else
     let r := Py.forLoop (none, []) (pyRange x.length (bs.getD 0)) (batchStep ap x (bs.getD 0))
-    Py.onExit r.1 (fun v => v) (.ok r.2.flatten)
+    Py.onExit r.1 (fun v => v) (.ok (vstackL r.2))
 
 /-- one turn of the loop of `AbstractPWA._apply_batched`: state = (outputs, exception_thrown,
 points_outside_source_domain); a batch that raises contributes its mask, a clean batch one `False` per point -/
@@ -114,7 +126,7 @@ def pwaApplyBatchedSrc {α β} (ap : List α → Except (List Bool) (List β)) (
   else if x.length == 0 then ap x
   else
     let r := Py.forLoop ([], false, []) (pyRange x.length (bs.getD 0)) (pwaBatchStep ap x (bs.getD 0))
-    if r.2.1 then .error r.2.2.flatten else .ok r.1.flatten
+    if r.2.1 then .error (hstackL r.2.2) else .ok (vstackL r.1)
 
 /-! ### the piecewise-affine point location, array by array -/
 
@@ -153,28 +165,39 @@ def pythonIabSrc (src : List Tri) (points : List Pt) : Except (List Bool) (List 
 def pwaApplySrc (iab : List Pt → Except (List Bool) (List Nat × Vec × Vec)) (ti tij tik : List Pt) (x : List Pt) :
     Except (List Bool) (List Pt) :=
   Py.tryCatch (iab x) (fun e => .error e)
-    (fun r => .ok (ptsAdd (ptsAdd (gatherPts ti r.1) (colMul r.2.1 (gatherPts tij r.1))) (colMul r.2.2 (gatherPts tik r.1))))
+    (fun r => .ok (ptsAdd (ptsAdd (gatherPts ti r.1) (colMul ⟨r.2.1⟩ (gatherPts tij r.1))) (colMul ⟨r.2.2⟩ (gatherPts tik r.1))))
 
 /-! ### the memo of `CachedPWA` as the two attributes it writes -/
 
+/-- an array the transform OWNS: the result of `np.array(points, copy=True)`.  The memo key has this type, so that
+storing the caller's array itself (`self._applied_points = points`, the defect repaired by d62a379: later in-place edits of
+the caller's array would change the key) does not type-check against `cachedIabSrc`; only a private copy does.  What a
+key that is a REFERENCE does is the state machine `stepCoded` of Core/C09.lean, refuted by `apply_pure_coded_refuted_aliasing`. -/
+structure Owned (Val : Type) where
+  val : Val
+  deriving DecidableEq
+
+/-- `np.array(points, copy=True)` -/
+def Owned.copy {Val} (v : Val) : Owned Val := ⟨v⟩
+
 structure MemoSt (Val Res : Type) where
-  key : Option Val
+  key : Option (Owned Val)
   iab : Option Res
 
 /-- `points.shape == self._applied_points.shape` (only evaluated when the attribute is not `None`) -/
-def shapeEqO {Val} (shape : Val → Nat) (p : Val) (q : Option Val) : Bool :=
+def shapeEqO {Val} (shape : Val → Nat) (p : Val) (q : Option (Owned Val)) : Bool :=
   match q with
-  | some w => shape p == shape w
+  | some w => shape p == shape w.val
   | none => false
 /-- `np.array_equal(points, self._applied_points)` -/
-def arrEqO {Val} [DecidableEq Val] (p : Val) (q : Option Val) : Bool := decide (q = some p)
+def arrEqO {Val} [DecidableEq Val] (p : Val) (q : Option (Owned Val)) : Bool := decide (q = some ⟨p⟩)
 
 /-- `CachedPWA.index_alpha_beta(self, points)`: new attributes and the result (`compute` = `PythonPWA.index_alpha_beta`) -/
 def cachedIabSrc {Val Res Err} [DecidableEq Val] (shape : Val → Nat) (compute : Val → Except Err Res)
     (s : MemoSt Val Res) (points : Val) : MemoSt Val Res × Except Err (Option Res) :=
   if s.key.isNone || !(shapeEqO shape points s.key) || !(arrEqO points s.key) then
     Py.tryCatch (compute points) (fun e => (s, .error e))
-      (fun v => ({ key := some points, iab := some v }, .ok (some v)))
+      (fun v => ({ key := some (Owned.copy points), iab := some v }, .ok (some v)))
   else (s, .ok s.iab)
 
 /-! ### chains, `WithDims`, `apply`, `pwa_point_in_pointcloud` -/
